@@ -1760,6 +1760,11 @@ class _rrulestr(object):
                 for value in exdatevals:
                     rset.exdate(value)
                 if compatible and dtstart:
+                    if not isinstance(dtstart, datetime.datetime):
+                        # A date is a valid dtstart; the rules read it as
+                        # midnight and so does the RDATE added here.
+                        dtstart = datetime.datetime.fromordinal(
+                            dtstart.toordinal())
                     rset.rdate(dtstart)
                 return rset
             else:
